@@ -80,6 +80,9 @@ pub struct St {
     pub lazy_inits: Vec<u8>,
     pub raced: bool,
     pub user_panic: Option<u64>,
+    /// the step that produced this state was a spurious return of `Notify::wait` (such steps do
+    /// not count as progress: loom also explores the execution in which the wake-up never comes)
+    pub via_spurious: bool,
 }
 
 #[derive(Clone, Copy, PartialEq, Eq, Debug)]
@@ -134,6 +137,7 @@ impl St {
             lazy_inits: vec![0; o.lazies.len()],
             raced: false,
             user_panic: None,
+            via_spurious: false,
         };
         s.normalise(p);
         s
@@ -212,6 +216,11 @@ impl St {
     /// All successor states of one step of thread `t`; `Some(res)` if the step completes the
     /// thread's current op.
     pub fn succ(&self, p: &Program, t: usize, m: Mode) -> Vec<(St, Option<Res>)> {
+        if self.via_spurious {
+            let mut s = self.clone();
+            s.via_spurious = false;
+            return s.succ(p, t, m);
+        }
         let th = &self.th[t];
         let mut out = vec![];
         match th.status {
@@ -420,6 +429,7 @@ impl St {
                     let mut s2 = s.clone();
                     s2.ncredit[n] = false;
                     s2.finish_op(p, t, Res::U, m);
+                    s2.via_spurious = true;
                     out.push((s2, Some(Res::U)));
                 }
                 if s.nflag[n] {
@@ -450,13 +460,13 @@ impl St {
                 fin!(s, Res::U)
             }
             K::Send { ch, v } => {
+                // after the receiver is dropped the message is handed back to the sender
+                // (whether the call says Ok or Err is not part of the observable result)
                 if s.rx_alive[ch] {
                     let vc = s.th[t].vc;
                     s.chan[ch].push_back((v, if m.hb { vc } else { [0; MAXT] }));
-                    fin!(s, Res::Ok(0))
-                } else {
-                    fin!(s, Res::Err(0))
                 }
+                fin!(s, Res::U)
             }
             K::Recv { ch } => {
                 if let Some((v, k)) = s.chan[ch].pop_front() {
@@ -713,9 +723,14 @@ pub fn explore(p: &Program, m: Mode, max_states: u64) -> ScResult {
             continue;
         }
         let mut any = false;
+        let mut any_spurious = false;
         for t in 0..s.th.len() {
             for (n, _r) in s.succ(p, t, m) {
-                any = true;
+                if n.via_spurious {
+                    any_spurious = true;
+                } else {
+                    any = true;
+                }
                 res.transitions += 1;
                 if !seen.contains(&n) {
                     seen.insert(n.clone());
@@ -726,6 +741,7 @@ pub fn explore(p: &Program, m: Mode, max_states: u64) -> ScResult {
                 }
             }
         }
+        let _ = any_spurious;
         if !any {
             if s.all_done() {
                 let o = s.outcome(p);
